@@ -112,12 +112,13 @@ def impl(case):
     inner_snap = common.enc_cfg(inner, "Float") if inner is not None and hasattr(inner, "rules") else None
     out = {"answers": [], "fresh": [], "cache_mutations": [], "grammar_mutated": False}
     for op in case["ops"]:
-        before = _snapshot(obj)
+        snap = not case.get("no_snapshot")
+        before = _snapshot(obj) if snap else {}
         try:
             a = _answer(obj, op)
         except Exception as e:  # noqa
             a = {"exc": type(e).__name__, "msg": str(e)[:200]}
-        after = _snapshot(obj)
+        after = _snapshot(obj) if snap else {}
         if op[0] != "clear":
             for k, cols in before.items():
                 if k in after and after[k] != cols:
@@ -171,6 +172,10 @@ def long_cases():
         q = "p_next" if kind.endswith("_lm") or kind.startswith("bool") else "call"
         ops = [[q, a[: n // 2]], [q, a], [q, a[: n // 2] + ["b"]], [q, a[: n // 3]], ["clear"], [q, a[: n // 2]], [q, a[: n // 2]]]
         out.append({"kind": kind, "shape": f"long_{n}", "cfg": g, "ops": ops})
+    # cold query beyond the interpreter's recursion limit (one chart level per token), then warm re-queries
+    a = ["a"] * 520
+    out.append({"kind": "rescaled_lm", "shape": "long_cold_520", "cfg": g, "ops": [["p_next", a], ["p_next", a[:260]], ["p_next", a]], "no_snapshot": True})
+    out.append({"kind": "earley", "shape": "long_cold_520", "cfg": g, "ops": [["call", a], ["call", a[:300]]], "no_snapshot": True})
     return out
 
 
